@@ -109,7 +109,9 @@ Mis(pre, r, ev) ==
    \o Chk(ev.q = o.q, "query-result", "C03 C06 C13 C12", o.q, ev.q)
    \o Chk(ev.acc = o.acc, "accepted", "C01 C02 C03 C05 C07", o.acc, ev.acc)
    \o Chk(ev.ret = o.ret /\ ev.thr = o.thr /\ ev.thrv = o.thrv, "result", "C02 C08 C03", <<o.ret, o.thr, o.thrv>>, <<ev.ret, ev.thr, ev.thrv>>)
-   \o RepsMis(pre, o.reps, ev.reps)
+   \o (IF o.anyreps
+       THEN Chk(\A i \in 1..Len(ev.reps) : ev.reps[i].sev = 1, "report-severity", "C15", "non-fatal reports only", ev.reps)
+       ELSE RepsMis(pre, o.reps, ev.reps))
    \o Chk(ev.oks = o.oks, "ok-reports", "C16", o.oks, ev.oks)
    \o Chk(ev.probe = o.probe, "previous-reporter", "C16", o.probe, ev.probe)
    \o (IF o.trck THEN Chk(Len(ev.trs) = Len(o.trs) /\ \A i \in 1..Len(o.trs) : TrOk(o.trs[i], ev.trs[i]),
